@@ -300,6 +300,8 @@ class FieldHandler:
         self._report_unexpected_argument(field)
         if not self.return_desc:
             self.return_desc = ReturnDesc()
+        elif self.return_desc.body is not None:
+            field.report('Return value was already documented')
         self.return_desc.body = field.format()
     handle_returns = handle_return
 
@@ -307,6 +309,8 @@ class FieldHandler:
         self._report_unexpected_argument(field)
         if not self.yields_desc:
             self.yields_desc = FieldDesc()
+        elif self.yields_desc.body is not None:
+            field.report('Yield value was already documented')
         self.yields_desc.body = field.format()
     handle_yields = handle_yield
 
@@ -314,6 +318,8 @@ class FieldHandler:
         self._report_unexpected_argument(field)
         if not self.return_desc:
             self.return_desc = ReturnDesc()
+        elif self.return_desc.type is not None and self.return_desc.type_origin is FieldOrigin.FROM_DOCSTRING:
+            field.report('Return type was already documented')
         self.return_desc.type = field.format()
         self.return_desc.type_origin = FieldOrigin.FROM_DOCSTRING
     handle_rtype = handle_returntype
@@ -322,6 +328,8 @@ class FieldHandler:
         self._report_unexpected_argument(field)
         if not self.yields_desc:
             self.yields_desc = FieldDesc()
+        elif self.yields_desc.type is not None:
+            field.report('Yield type was already documented')
         self.yields_desc.type = field.format()
     handle_ytype = handle_yieldtype
 
@@ -399,6 +407,9 @@ class FieldHandler:
             #       inconsistencies.
             name = field.arg
         if name is not None:
+            previous = self.types.get(name)
+            if previous is not None and previous.origin is FieldOrigin.FROM_DOCSTRING:
+                field.report('Type of "%s" was already documented' % (name,))
             self.types[name] = ParamType(field.format(), origin=FieldOrigin.FROM_DOCSTRING)
 
     def handle_param(self, field: Field) -> None:
